@@ -146,7 +146,7 @@ def check_error_discipline(ctx, prefix):
     site = re_.site
     body = re_.node.body
     # isgood = False on every path, before anything that can leave the function
-    first_effect = next((s for s in body if not (isinstance(s, ast.Expr) and isinstance(s.value, ast.Constant))), None)
+    first_effect = next(iter(rules.effective(body)), None)
     ok = isinstance(first_effect, ast.Assign) and norm(first_effect.targets[0]) == "self.isgood" and \
         isinstance(first_effect.value, ast.Constant) and first_effect.value.value is False
     ctx.check(ok, f"{prefix}.ISGOOD", site, "raise_error stores isgood=False before anything else, on every path",
@@ -183,7 +183,7 @@ def check_error_discipline(ctx, prefix):
                     sets = any(isinstance(s, ast.Assign) and norm(s) == "self.isgood = False" for s in h.body)
                     rer = any(isinstance(s, ast.If) and norm(s.test) == "self.fail_on_bad" and
                               rules.always_raises(s.body) for s in h.body)
-                    first = h.body[0] if h.body else None
+                    first = next(iter(rules.effective(h.body)), None)
                     ok = sets and rer and isinstance(first, ast.Assign) and norm(first) == "self.isgood = False"
     ctx.check(ok, f"{prefix}.CTOR-HANDLER", ini.site,
               "constructor wraps reader + taste(), catches Exception, stores isgood=False first, re-raises iff "
